@@ -11,6 +11,8 @@ Decided statically (engines E5 traces + E6 writer/reader agreement + DDL):
              columns (id, iso_type) never reach the constructor, not even when a user property has the same name;
              list-valued properties written one row per element are regrouped by the reader; the literal data
              keys / bool encodings of writer and reader agree
+  D-ref      a row id (cursor.lastrowid / id column of a fetched row) bound to a foreign-key column comes from the table the
+             column references (lastrowid is read before any other INSERT runs on the cursor)
 Not decided: arbitrary interleavings vs a dictionary model (needs executing histories); value/type fidelity of
 SQLite's column affinity.
 """
@@ -131,6 +133,7 @@ def r_paths(ctx: Ctx, model, mach):
     ctx.floor("store functions under with_connection", len(fns), 21)
     children = C09.child_tables(mach.tables)
     n = 0
+    nref = [0]
     for fi in fns:
         if re.search(r"(_to_db|_delete_db)$", fi.name):
             vs = list(C09.variants(fi, I))
@@ -173,6 +176,29 @@ def r_paths(ctx: Ctx, model, mach):
                     ctx.ob(bool(okp), Finding("C08.D-path", fi.where, f"{fi.name}|foreign-keys-not-first",
                                               f"{fi.name}: PRAGMA foreign_keys = ON is not the first statement of the connection "
                                               f"(statements: {[(e[1], e[2]) for e in sqls][:3]}): unknown references would be accepted"))
+                    # D-ref: a row id bound to a foreign-key column of an INSERT / DELETE / UPDATE comes from the referenced table
+                    for e in trace:
+                        if e[0] != "bind" or e[2] not in mach.tables:
+                            continue
+                        fks = {col: ref for col, ref, refcol in mach.tables[e[2]].fks if mach.tables.get(ref) and
+                               mach.tables[ref].columns.get(refcol, {}).get("pk")}
+                        for row in (e[3] if isinstance(e[3], (list, tuple)) else [e[3]]):
+                            if not isinstance(row, dict):
+                                continue
+                            for col, ref in fks.items():
+                                if col not in row:
+                                    continue
+                                d = I.describe(row[col])
+                                src = re.fullmatch(r"rowid:(\w+)", d) or re.fullmatch(r"row:(\w+)\[\w+\]", d)
+                                if src is None:
+                                    continue
+                                nref[0] += 1
+                                ctx.ob(src.group(1) == ref, Finding(
+                                    "C08.D-ref", fi.where, f"{fi.name}|{e[2]}.{col}<-{src.group(1)}",
+                                    f"{fi.name}({vdesc}): the {e[1]} on {e[2]} binds {col} = {d}, the row id of a row of '{src.group(1)}', but {col} "
+                                    f"references '{ref}': (another INSERT ran on the cursor before lastrowid was read, or the id was taken from the wrong "
+                                    "result) - the rows are attached to another item or refused by the foreign key"),
+                                    nontrivial_key=("ref", fi.name, e[2], col, tuple(c for l, c in oc.decisions)))
                     for i, e in enumerate(trace):
                         if e[0] == "registry-read":
                             later = [x for x in trace[i + 1:] if x[0] == "sql" and x[1] in WRITE_KINDS]
@@ -202,6 +228,7 @@ def r_paths(ctx: Ctx, model, mach):
                                 seen_del.add(e[2])
                         check_constructs(ctx, fi, vdesc, trace, mach)
     ctx.floor("store-function paths", n, 150)
+    ctx.floor("row ids bound to foreign-key columns (D-ref)", nref[0], 20)
 
 
 def check_constructs(ctx, fi, vdesc, trace, mach):
@@ -270,33 +297,79 @@ def r_lists(ctx: Ctx, model, mach):
 
 
 def r_bool(ctx: Ctx, model, mach):
-    ctx.rule("D-read(bool): the writer's TRUE/FALSE encoding is inverted by check_SQL_bool")
+    ctx.rule("D-read(bool): isotherm_to_db interpreted on metadata {True, False, 1, 0, text}: only booleans are stored under the two "
+             "boolean spellings, numbers and text as themselves; check_SQL_bool inverts exactly those two spellings")
+    from .C09 import mk_iso
+    from ..num import Num
     I = mach.I
+    w = model.func(f"{SQLITE}.isotherm_to_db")
     f = model.func("pygaps.utilities.sqlite_utilities.check_SQL_bool")
-    w = ast.unparse(model.func(f"{SQLITE}.isotherm_to_db").node)
-    m = re.search(r"val = '(\w+)' if val else '(\w+)'", w)
-    if not m:
-        raise AnalysisError("anchor missing: bool encoding in isotherm_to_db")
-    others = [x for x in ("true", "True", "false", "False", "tRuE", "other", "1", "0") if x not in (m.group(1), m.group(2))]
-    for enc, want in [(m.group(1), True), (m.group(2), False)] + [(x, x) for x in others]:
+    props = {"flagT": True, "flagF": False, "one": Num.const(1), "zero": Num.const(0), "text": "some text"}
+
+    def thunk(I):
+        iso = mk_iso(I, "base")
+        iso.attrs["properties"] = dict(props)
+        return I.call_func(w, [iso], {"db_path": "USER.db", "verbose": False}, None)
+    saved_inject, mach.inject = mach.inject, False
+    bound_paths = []
+    try:
+        for oc, trace in mach.explore(thunk):
+            if oc.kind != "ok":
+                continue
+            bound = {}
+            for e in trace:
+                if e[0] == "bind" and e[2] == "isotherm_properties":
+                    for row in (e[3] if isinstance(e[3], (list, tuple)) else [e[3]]):
+                        if isinstance(row, dict) and "type" in row:
+                            bound[row["type"]] = row.get("value")
+            bound_paths.append(bound)
+    finally:
+        mach.inject = saved_inject
+    ctx.floor("isotherm_to_db completing paths (bool rule)", len(bound_paths), 1)
+    encs = set()
+    for bound in bound_paths:
+        missing = [k_ for k_ in props if k_ not in bound]
+        ctx.ob(not missing, Finding("C08.D-read", w.where, f"bool-encode:not-stored:{missing}", f"isotherm_to_db does not store the metadata {missing}"),
+               nontrivial_key=("bool-enc", "stored"))
+        if missing:
+            continue
+        eT, eF = bound["flagT"], bound["flagF"]
+        okb = isinstance(eT, str) and isinstance(eF, str) and eT != eF
+        ctx.ob(okb, Finding("C08.D-read", w.where, "bool-encode:spelling", f"True / False are stored as {eT!r} / {eF!r}; two distinct text spellings required "
+                            "(SQLite has no boolean type: 1/0 would come back as numbers)"), nontrivial_key=("bool-enc", "spelling"))
+        if okb:
+            encs.add((eT, eF))
+        for nm in ("one", "zero", "text"):
+            v = bound[nm]
+            same = I.py_eq(v, props[nm]) is True and not isinstance(v, bool) and type(v) is type(props[nm])
+            ctx.ob(same, Finding("C08.D-read", w.where, f"bool-encode:{nm}-stored-as-{v!r}",
+                                 f"the metadata value {props[nm]!r} is stored as {v!r}: a number equal to 1 / 0 (or a text) is not a boolean and must "
+                                 "come back as what it was (the retrieved isotherm would differ from the stored one)"),
+                   nontrivial_key=("bool-enc", nm))
+    if len(encs) != 1:
+        return
+    eT, eF = next(iter(encs))
+    others = [x for x in ("true", "True", "false", "False", "tRuE", "other", "1", "0", "TRUE", "FALSE") if x not in (eT, eF)]
+    for enc, want in [(eT, True), (eF, False)] + [(x, x) for x in others]:
         outs = I.explore(lambda I: I.call_func(f, [enc], {}, None))
         ok = len(outs) == 1 and outs[0].kind == "ok" and outs[0].value == want and (outs[0].value is want or isinstance(want, str))
         ctx.ob(ok, Finding("C08.D-read", f.where, f"bool-decode:{enc}",
                            f"check_SQL_bool({enc!r}) gives {outs[0]!r}; required {want!r}: only the writer's own encodings "
-                           f"({m.group(1)!r}/{m.group(2)!r}) stand for booleans, any other text property must come back as the text it was"),
+                           f"({eT!r}/{eF!r}) stand for booleans, any other text property must come back as the text it was"),
                nontrivial_key=("bool", enc))
 
 
-def r_module_state(ctx: Ctx, model):
-    ctx.rule("D-path(state): store functions write no module-level object except the two name registries "
-             "(an undeclared per-process cache makes the outcome depend on earlier calls, not on the file)")
+def r_module_state(ctx: Ctx, model, prop="C08", rule="D-path"):
+    ctx.rule(f"{rule}(state): store functions write no module-level object except the two name registries "
+             "(an undeclared per-process cache makes the outcome depend on earlier calls, not on the file, and is not rolled back with "
+             "the transaction)")
     from ..effects import Effects
     eff = Effects(model)
     allowed = {"pygaps.data.ADSORBATE_LIST", "pygaps.data.MATERIAL_LIST"}
     for fi in all_store_functions(model):
         s_ = eff.sum[eff.key(fi)]
         bad = sorted({g for g, _ in s_.gwrites} - allowed)
-        ctx.ob(not bad, Finding("C08.D-path", fi.where, f"{fi.name}|module-state:{bad}",
+        ctx.ob(not bad, Finding(f"{prop}.{rule}", fi.where, f"{fi.name}|module-state:{bad}",
                                 f"{fi.name} may write the module-level object(s) {bad}: results of later store calls depend on this "
                                 "process-local state instead of the database file"),
                nontrivial_key=("modstate", fi.name))
